@@ -62,7 +62,13 @@ def main():
         tb = traceback.format_exc()
         sys.stderr.write(tb)
         run.disagree(dict(i=None), '(harness exception)', 'n/a', tb[-1500:], what='exception while exercising the real code')
-    sys.exit(common.finish(run, proof, level=getattr(mod, 'LEVEL', 'proof')))
+    status = common.finish(run, proof, level=getattr(mod, 'LEVEL', 'proof'))
+    if getattr(run, 'hung', False) or any(f.get('signature', {}).get('kind') == 'hang' for f in run.failures):
+        # threads of the code under test are deadlocked: a normal interpreter exit would wait for them for ever
+        sys.stdout.flush()
+        sys.stderr.flush()
+        os._exit(status)
+    sys.exit(status)
 
 
 if __name__ == '__main__':
